@@ -28,7 +28,14 @@ def warmup():
     import adsg_core.optimization.graph_processor  # noqa
     simenv.setup(REPO)
     simenv.install_limiter()
-    simenv.reset()  # no connection choices are generated here: the numba kernels are not needed, the image stays small
+    import adsg_core.optimization.assign_enc.selector as sel
+    from simkit import gen_settings
+    with simenv.RunEnv(1):  # compile the numba kernels once, in the parent (8% of the runs have a connection choice)
+        st_, _ = gen_settings.build({'src': [{'conns': [1, 2], 'rep': False}],
+                                     'tgt': [{'conns': [0, 1], 'rep': False}, {'conns': [0, 1], 'rep': False}],
+                                     'excluded': [], 'patterns': None})
+        sel.EncoderSelector(st_).get_best_assignment_manager(cache=False)
+    simenv.reset()
     return {'interrupt_type_injected': 'SystemError (probed from the real limiter by C19 / E1)'}
 
 
@@ -379,9 +386,11 @@ def generate(prop, seed, tier, modes, conn_share=0.0, constraint_share=0.0):
     if conn_share and rng.random() < conn_share:
         spec = gen_dsg.add_conn_choice(rng, spec, p_group=0.0)
     mode = {'kind': rng.choice(modes), 'frac': round(rng.random(), 4)}
+    has_conn = bool(spec.get('conn'))
     return {'property': prop, 'engine': ENGINE, 'seed': seed, 'spec': spec, 'mode': mode,
             'ids_seed': s.int_seed('ids'), 'env_seed': s.int_seed('env'), 'vec_seed': s.int_seed('vec'),
-            'limit_exh': 300 if tier == 'quick' else 2000, 'n_sample': 120 if tier == 'quick' else 400}
+            'limit_exh': (100 if has_conn else 300) if tier == 'quick' else (600 if has_conn else 2000),
+            'n_sample': (40 if has_conn else 120) if tier == 'quick' else (150 if has_conn else 400)}
 
 
 def shrink_candidates(trace):
